@@ -565,8 +565,17 @@ class BayesianNetwork(DAG):
             n_prev_samples = data.shape[0]
 
         # Step 1: Compute the pseudo_counts for the dirichlet prior.
+        # The estimator lists the parents of each node in sorted order; bring the
+        # previous CPDs into the same column layout before using them as counts.
+        def _aligned_values(cpd):
+            evidence = list(cpd.variables[1:])
+            if evidence != sorted(evidence):
+                return cpd.reorder_parents(sorted(evidence), inplace=False)
+            return cpd.get_values()
+
         pseudo_counts = {
-            var: compat_fns.to_numpy(self.get_cpds(var).get_values()) * n_prev_samples
+            var: compat_fns.to_numpy(_aligned_values(self.get_cpds(var)))
+            * n_prev_samples
             for var in data.columns
         }
 
